@@ -1,4 +1,5 @@
 import PynetVerif.Props.C04
+import PynetVerif.Gen.Dul
 /-!
 C05 (tie of the reactor model's transition semantics to `fsm.py`).
 
@@ -22,5 +23,14 @@ step function applies -/
 theorem C05_effects_are_code :
     Gen.Fsm.runs.map (fun r => (r.1, r.2.project)) = domain.map (fun i => (i, Spec.Ps38.expected i)) :=
   C04_effects
+
+/-- the shape of one reactor iteration the model (`Dul.iterA` / `Dul.iterB`) and its invariant rest on:
+ARTIM expiry is looked at first, then EITHER a local primitive (peeked at, not popped: the action pops
+it) OR the transport, then exactly one queued event is dispatched.  `C05_neg_stream_both_sources`
+(Props/C05Stream.lean) shows what goes wrong when both sources are served in one iteration.
+Regenerated from dul.py on every run. -/
+theorem C05_reactor_shape_is_code :
+    Gen.Dul.sources = "exclusive" ∧ Gen.Dul.artimFirst = true ∧ Gen.Dul.oneDispatch = true ∧
+    Gen.Dul.primitivePeek = true := by decide
 
 end PynetVerif
